@@ -360,6 +360,120 @@ def check_graph_rewrite(inp):
             fails.append(f'layer width increased {widths0} -> {wa}')
     return fails
 
+
+# ------------------------------------------------------------------------------------------- C17
+
+def _tree_from_json(j):
+    from pytenet.optree import OpTreeNode, OpTreeEdge
+    return OpTreeNode([OpTreeEdge(c['oid'], c['coeff'], _tree_from_json(c['node'])) for c in j['children']], j['qnum'])
+
+
+def _graph_checks(g, ref, L):
+    from refs import words as W
+    fails = []
+    if not g.is_consistent():
+        fails.append('graph not consistent')
+    try:
+        if g.length != L:
+            fails.append(f'graph length {g.length} != {L}')
+        got = W.graph_words(g)
+    except Exception as e:
+        return fails + [f'graph walk failed: {type(e).__name__}: {e}']
+    if any(len(w) != L for w in got):
+        fails.append('path of wrong length')
+    fails += _words_close(got, ref)
+    return fails
+
+
+@check('optrees')
+def check_optrees(inp):
+    from pytenet.optree import OpTree
+    from pytenet.opgraph import OpGraph
+    from refs import words as W
+    L = inp['L']
+    trees = [OpTree(_tree_from_json(t['root']), t['istart']) for t in inp['trees']]
+    ref = W.trees_words(trees, L, 0)
+    try:
+        g = OpGraph.from_optrees(trees, L, 0)
+    except Exception as e:
+        return [f'from_optrees raised {type(e).__name__}: {e}']
+    return _graph_checks(g, ref, L)
+
+
+@check('automaton')
+def check_automaton(inp):
+    from pytenet.autop import AutOp, AutOpNode, AutOpEdge
+    from pytenet.opgraph import OpGraph
+    from refs import words as W
+    L, nn, term = inp['L'], inp['nn'], inp['term']
+    ACT = {'true': lambda i: True, 'never': lambda i: False, 'first_only': lambda i: i == 0, 'not_first': lambda i: i != 0,
+           'last_only': lambda i: i == L - 1}
+    # reference DP
+    cur = {term[0]: {(): 1}}
+    for i in range(L):
+        nxt = {}
+        for e in inp['edges']:
+            if e['a'] not in cur or not ACT[e['act']](i):
+                continue
+            for w, c in cur[e['a']].items():
+                for oid, cc in e['opics'][i]:
+                    W.wadd(nxt.setdefault(e['b'], {}), w + (int(oid),), c * cc)
+        cur = nxt
+    ref = cur.get(term[1], {})
+    nodes = [AutOpNode(i, [], [], inp['qnums'][i]) for i in range(nn)]
+    aut = AutOp(nodes, [], term)
+    for eid, e in enumerate(inp['edges']):
+        tbl = [[(o, c) for o, c in site] for site in e['opics']]
+        opics = (lambda t: (lambda i: t[i]))(tbl) if e['site_dep'] else tbl[0]
+        act = {'true': True, 'never': False}.get(e['act'], ACT[e['act']])
+        aut.add_connect_edge(AutOpEdge(eid, [e['a'], e['b']], opics, act))
+    try:
+        g = OpGraph.from_automaton(aut, L)
+    except Exception as e:
+        if not ref:
+            return []
+        return [f'from_automaton raised {type(e).__name__}: {e}']
+    if not ref:
+        return ['no automaton path of this length, but a graph was returned']
+    return _graph_checks(g, ref, L)
+
+
+@check('dense_meaning')
+def check_dense_meaning(inp):
+    from refs import words as W
+    from pytenet.opchain import OpChain
+    from pytenet.optree import OpTree
+    rng = np.random.default_rng(11)
+    opmap = {0: rng.standard_normal((2, 2)), 1: rng.standard_normal((2, 2))}
+    kind = inp['kind']
+    try:
+        if kind == 'dense_chain':
+            M = OpChain(inp['oids'], [0] * (len(inp['oids']) + 1), inp['coeff'], 0).as_matrix(opmap)
+            ref = W.words_matrix({tuple(inp['oids']): inp['coeff']}, opmap, 2)
+        elif kind == 'dense_tree':
+            root = _tree_from_json(inp['root'])
+            tree = OpTree(root, 0)
+            words = W.tree_words(root)
+            h = max(len(w) for w in words)
+            if tree.height() != h:
+                return [f'height() = {tree.height()} != {h}']
+            M = tree.as_matrix(opmap)
+            om = dict(opmap); om['I'] = np.identity(2)
+            padded = {}
+            for w, c in words.items():
+                W.wadd(padded, tuple(w) + ('I',) * (h - len(w)), c)
+            ref = W.words_matrix(padded, om, 2)
+        else:
+            g = _graph_from_json(inp['graph'])
+            M = g.as_matrix(opmap, inp['direction'])
+            ref = W.words_matrix(W.graph_words(g), opmap, 2)
+    except Exception as e:
+        return [f'{kind}: as_matrix raised {type(e).__name__}: {e}']
+    ref = np.array(ref, dtype=float)
+    if not close(np.asarray(M, dtype=float), ref, float(np.max(np.abs(ref)))):
+        return [f'{kind}: as_matrix differs from the word semantics']
+    return []
+
 # -------------------------------------------------------------------------------------------
 
 def main():
